@@ -130,6 +130,52 @@ def s_removal_matrix(ctx, vh):
     ctx.coverage["removal_matrix"] = len(meta)
 
 
+CONTEXT_DOCS = [
+    # (lines of one object body; every line is a binding that has to take effect NEXT TO the others)
+    ("QWidget", ['palette.window: "black"', 'palette.active.windowText: "white"', 'palette.inactive.windowText: "silver"', 'palette.disabled.windowText: "gray"', 'palette.base: "red"']),
+    ("QWidget", ['palette.window: "black"', 'palette.active.text: "white"']),
+    ("QWidget", ['palette.active.window: "blue"', 'palette.window: "black"', 'palette.disabled.window: "gray"']),
+    ("QLabel", ['font.bold: true', 'font.family: "Mono"', 'font.pointSize: 9', 'text: "t"', 'alignment: Qt.AlignRight']),
+    ("QLabel", ['sizePolicy.horizontalPolicy: QSizePolicy.Expanding', 'sizePolicy.verticalPolicy: QSizePolicy.Fixed', 'sizePolicy.horizontalStretch: 2', 'minimumSize.width: 3', 'minimumSize.height: 4']),
+    ("QTableView", ['showGrid: false', 'horizontalHeader.stretchLastSection: true', 'verticalHeader.visible: false', 'verticalHeader.defaultSectionSize: 20']),
+    ("QTreeView", ['header.minimumSectionSize: 100', 'header.visible: false', 'rootIsDecorated: false']),
+    ("QGraphicsView", ['backgroundBrush.color: "red"', 'backgroundBrush.style: Qt.NoBrush', 'foregroundBrush: "blue"']),
+    ("QPushButton", ['icon.name: "go"', 'icon.normalOff: "a.png"', 'iconSize.width: 16', 'iconSize.height: 16', 'text: "t"', 'shortcut: "Ctrl+A"']),
+]
+
+
+def s_context_removal(ctx, vh):
+    """several bindings on one object (palette roles with and without explicit colour groups, members of several grouped values, header groups, brushes): the document
+    with all of them against the document without ONE of them -- each binding changes the outputs or is diagnosed, whatever stands next to it; the object is also
+    placed as a page of a tab widget with its tab attributes, and as an item of a layout with its attached settings"""
+    docs, meta = [], []
+    wraps = [("plain", "QWidget {\n  %s {\n    id: x\n%s  }\n}\n"), ("tab-page", "QTabWidget {\n  %s {\n    id: x\n    QTabWidget.title: \"page\"\n    QTabWidget.toolTip: \"tip\"\n%s  }\n}\n"),
+             ("layout-item", "QWidget {\n  QGridLayout {\n    %s {\n    id: x\n    QLayout.row: 1\n    QLayout.alignment: Qt.AlignTop\n%s    }\n  }\n}\n")]
+    for cls, lines in CONTEXT_DOCS:
+        for wname, wrap in wraps:
+            body = lambda ls: "".join("    %s\n" % l for l in ls)
+            full = "import qmluic.QtWidgets\n" + wrap % (cls, body(lines))
+            docs.append(full)
+            meta.append((cls, wname, None, full))
+            for k in range(len(lines)):
+                docs.append("import qmluic.QtWidgets\n" + wrap % (cls, body(lines[:k] + lines[k + 1:])))
+                meta.append((cls, wname, lines[k], full))
+    res = qml.run_docs(vh, docs, mode="generate")
+    full_res = None
+    for (cls, wname, line, full), d, r in zip(meta, docs, res):
+        if line is None:
+            full_res = r
+            continue
+        ctx.count(("context-removal", cls, wname, line), True)
+        ctx.dist("context-removal")
+        if not isinstance(r, dict) or not isinstance(full_res, dict) or "diags" not in full_res:
+            ctx.violation("pipeline gives no result on a document of constant bindings", {"qml": full, "impl_output": str(full_res)[:400]})
+            continue
+        if full_res.get("ui") is not None and not full_res["diags"] and full_res.get("ui") == r.get("ui") and full_res.get("header") == r.get("header"):
+            ctx.violation("%s (%s): the binding `%s` is accepted without diagnostic and leaves no trace next to the other bindings of the object: the outputs equal those of the document without it"
+                          % (cls, wname, line), {"qml": full, "without": d, "impl_output": full_res.get("ui"), "theorem_or_correspondence": "S: differential -- a binding is in the form, in the header, or diagnosed"})
+
+
 def s_attached_matrix(ctx, vh):
     """every QLayout.* attached binding x every layout class x child kind, one binding per document, against the SAME document without it: an accepted
     binding that changes nothing in the form and draws no diagnostic was consumed silently"""
@@ -304,6 +350,7 @@ def run(ctx):
     s_nested_groups(ctx, vh, rng)
     s_attached_matrix(ctx, vh)
     s_removal_matrix(ctx, vh)
+    s_context_removal(ctx, vh)
     # ---- planted faults: diagnosed inside the planted text
     nf = 1800 if ctx.tier == "thorough" else 150
     froots, fdocs, fkinds = [], [], []
